@@ -236,6 +236,25 @@ func (in *Interp) external(cc *CallCtx, ret func(*State, []Val)) {
 	case "errors.Is", "errors.As":
 		ret(cc.St, []Val{unknown})
 		return
+	case "bytes.NewBuffer", "bytes.NewReader":
+		if in.BitMode && len(cc.Args) == 1 {
+			name := fmt.Sprintf("buf#%d", in.P.Fset.Position(cc.Site.Pos()).Line)
+			if cc.Args[0].K == KExpr {
+				name = cc.Args[0].Key
+			}
+			ret(cc.St, []Val{{K: KExpr, Key: name, T: sig.Results().At(0).Type()}})
+			return
+		}
+	case "(*bytes.Buffer).Bytes":
+		if in.BitMode && cc.Recv != nil && cc.Recv.K == KExpr {
+			ret(cc.St, []Val{{K: KExpr, Key: cc.Recv.Key, T: sig.Results().At(0).Type()}})
+			return
+		}
+	case "(*bytes.Buffer).Len":
+		if in.BitMode && cc.Recv != nil && cc.Recv.K == KExpr {
+			ret(cc.St, []Val{{K: KLin, Lin: linTerm("len(" + cc.Recv.Key + ")"), T: sig.Results().At(0).Type()}})
+			return
+		}
 	case "(net.IP).To4", "(net.IP).To16":
 		// pure accessors with a documented result length (4 / 16 bytes when non-nil)
 		if cc.Recv != nil && cc.Recv.K == KExpr {
@@ -258,6 +277,9 @@ func (in *Interp) external(cc *CallCtx, ret func(*State, []Val)) {
 		rt := sig.Results().At(i).Type()
 		if _, isPtr := rt.Underlying().(*types.Pointer); isPtr {
 			vals[i] = Val{K: KNonNil, T: rt}
+		}
+		if in.BitMode && isIntType(rt) {
+			vals[i] = Val{K: KSym, Sym: in.newSym(), T: rt} // a nameable unknown
 		}
 	}
 	ret(cc.St, vals)
@@ -395,6 +417,25 @@ func (in *Interp) trivialExpr(e ast.Expr, info *types.Info) bool {
 
 func (in *Interp) convert(v Val, to, from types.Type, st *State) Val {
 	v = in.resolve(v, st)
+	if in.BitMode && isIntType(to) && from != nil && isIntType(from) {
+		switch {
+		case v.K == KLin && v.Lin != nil && v.Lin.B != nil:
+			if nv, ok := in.convertBits(v, to, st); ok {
+				return nv
+			}
+		case v.K == KSym || (v.K == KExpr && v.Key != "&mask" && v.Key != "|mask" && v.Key != "&^mask"):
+			// promote with the width of the source type, then extend / truncate
+			src := v
+			if src.T == nil || !isIntType(src.T) {
+				src.T = from
+			}
+			if b, ok := in.toBits(src, st); ok {
+				if nv, ok := in.convertBits(bitsVal(b, src.T), to, st); ok {
+					return nv
+				}
+			}
+		}
+	}
 	switch v.K {
 	case KConst:
 		if v.C.Kind() == constant.Int {
